@@ -16,6 +16,7 @@ class Cl:
         self.vars = []     # list of sorts
         self.anon = 0
         self.ops = False
+        self.rich = False
 
     def var(self, sort, fresh_p=0.3):
         cands = [i for i, so in enumerate(self.vars) if so == sort]
@@ -30,6 +31,9 @@ class Cl:
 
     def t0(self):
         r = self.rnd.random()
+        if self.rich and r < 0.08:
+            # unusual shapes: atoms that need quotes, the empty-list atom, big integers, a compound without arguments
+            return self.rnd.choice([A("two words"), A("it's"), A("\u00e9t\u00e9"), A("[]"), A("A"), A("_x"), I(0), I(10 ** 15), {"t": "c", "n": "e", "a": []}, A("e")])
         if r < 0.45:
             return A(self.rnd.choice("abc"))
         if r < 0.55:
@@ -142,6 +146,7 @@ def fix_plain_or(b):
 def mk_clause(rnd, name, fact, frag, depth=3):
     c = Cl(rnd)
     c.ops = "ops" in frag
+    c.rich = "rich" in frag
     h = atomcall(c, name)
     body = TRUE if fact else goal(c, rnd.randint(1, depth), True, frag)
     cl = {"h": h, "body": body, "nv": 0}
@@ -160,6 +165,7 @@ def program(rnd, frag, nclauses=3, depth=3):
             defs["%s/%d" % (name, len(SIG[name]))] = cls
     c = Cl(rnd)
     c.ops = "ops" in frag
+    c.rich = "rich" in frag
     c.vars = [1, 1]
     body = goal(c, depth, True, frag)
     cl = {"h": C("top", V(0), V(1)), "body": body}
